@@ -135,6 +135,9 @@ func c01Classify(steps []c01Step) (nontrivial bool, classes []string) {
 	return
 }
 
+// c01AfterWrite, when set, is called after every acknowledged write (schedule coupling).
+var c01AfterWrite func()
+
 func c01Run(t *rapid.T, cfg Config, steps []c01Step, checkEvery bool) (*Observed, *State) {
 	dir := TempDir(t)
 	idx, err := cfg.Create(dir, WorldMapping())
@@ -156,11 +159,17 @@ func c01Run(t *rapid.T, cfg Config, steps []c01Step, checkEvery bool) (*Observed
 				t.Fatalf("step %d batch: %v", i, err)
 			}
 			model.Apply(s.Ops)
+			if c01AfterWrite != nil {
+				c01AfterWrite()
+			}
 		case "single":
 			if err := ApplySingle(idx, s.Ops[0]); err != nil {
 				t.Fatalf("step %d single: %v", i, err)
 			}
 			model.Apply(s.Ops)
+			if c01AfterWrite != nil {
+				c01AfterWrite()
+			}
 		case "reopen":
 			if cfg.UnsafeBatch {
 				// unsafe_batch acknowledges before persisting; a clean Close does not flush
@@ -237,6 +246,7 @@ func TestC01History(t *testing.T) {
 	ev := Ev("C01")
 	ev.SetRule("rapid-generated histories (1..N steps of batch(0-6 ops)/single op/reopen/force-merge/wait over 8 ids and 3 internal keys) on a drawn engine config, " +
 		"checked against the last-write-wins map after every step, then the flattened ops re-partitioned and replayed on a second drawn config and the two observable states compared; " +
+		"scheduled mode (scorch disk, unsafe batches): the same per-step check while persister and merger wait at 1-8 drawn window points for the writer's next call (8 ms cap); " +
 		"non-trivial = some id is updated while live, deleted and re-created across >=2 batches, or a batch has >=2 ops on one id; distinct = hash of (configs, steps)")
 	ev.Assume("document ids and words are ASCII; internal values are non-empty")
 	engines := []string{EngScorchMem, EngScorchMem, EngScorchMem, EngUDGtreap, EngUDGtreap, EngUDMoss, EngScorchDisk, EngUDBolt, EngUDLevel}
